@@ -181,7 +181,7 @@ fn handle_crash(pa: &ParentArgs, bin: &str, wargs: &WorkerArgs, run: u64, how: &
     a.journal = Some(jpath.clone());
     a.max_seconds = 0;
     let aj = serde_json::to_string(&a).unwrap();
-    let (code, sig, _out, timed_out) = run_sub(bin, &["worker", &aj], Duration::from_secs(pa.hang_secs));
+    let (code, sig, rerun_out, timed_out) = run_sub(bin, &["worker", &aj], Duration::from_secs(pa.hang_secs));
     let op = std::fs::read_to_string(&jpath).unwrap_or_default();
     let _ = std::fs::remove_file(&jpath);
     let reproduced = if hang { timed_out } else { sig.is_some() || (code.is_some() && code != Some(0)) };
@@ -194,6 +194,17 @@ fn handle_crash(pa: &ParentArgs, bin: &str, wargs: &WorkerArgs, run: u64, how: &
         if hang { "the operation terminates within its step budget" } else { "normal return or unwinding panic, never a process abort / memory error" },
     );
     if !reproduced {
+        // The isolated re-run (which does not minimise) survived: the worker died while minimising an
+        // ordinary violation of this run (a shrink candidate killed the process). Report that violation, unminimised.
+        for l in rerun_out.lines() {
+            if let Some(j) = l.strip_prefix("R ") {
+                if let Ok(rl) = serde_json::from_str::<RunLine>(j) {
+                    if let Some(v2) = rl.outcome.violation {
+                        return (v2, rl.replay);
+                    }
+                }
+            }
+        }
         return (
             Violation::new("harness", format!("{world}:unreproducible-{class}"), v.observed.clone(), "isolated re-run fails the same way"),
             None,
@@ -242,9 +253,11 @@ fn handle_crash(pa: &ParentArgs, bin: &str, wargs: &WorkerArgs, run: u64, how: &
                 tried += 1;
                 let cf = tmp_path(&pa.replay_dir, "shrink-cand");
                 let _ = std::fs::write(&cf, serde_json::to_string(&mk(&cand, serde_json::Value::Null)).unwrap());
+                // memory errors need not be deterministic: a candidate is accepted only if it dies twice in a row
                 let (c2, s2, _, t2) = run_sub(bin, &["replay-exec", &cf], Duration::from_secs(pa.hang_secs));
+                let again = if !t2 && s2.is_some() && s2 == sig && c2.is_none() { run_sub(bin, &["replay-exec", &cf], Duration::from_secs(pa.hang_secs)).1 == sig } else { false };
                 let _ = std::fs::remove_file(&cf);
-                if !t2 && s2.is_some() && s2 == sig && c2.is_none() {
+                if again {
                     cur = cand;
                     continue 'outer;
                 }
@@ -258,6 +271,14 @@ fn handle_crash(pa: &ParentArgs, bin: &str, wargs: &WorkerArgs, run: u64, how: &
     );
     let path = format!("{}/{}-{:x}-{}-{}.json", pa.replay_dir, pa.prop, pa.verif_seed, run, class);
     let _ = std::fs::write(&path, serde_json::to_string_pretty(&rf).unwrap());
+    if !hang && cur != case {
+        // if the minimised case does not die in a fresh process, keep the original one
+        let (c3, s3, _, _) = run_sub(bin, &["replay-exec", &path], Duration::from_secs(pa.hang_secs));
+        if !(s3.is_some() || matches!(c3, Some(c) if c != 0 && c != 1)) {
+            let rf = mk(&case, serde_json::json!({"minimisation": "dropped: the minimised case did not reproduce in a fresh process"}));
+            let _ = std::fs::write(&path, serde_json::to_string_pretty(&rf).unwrap());
+        }
+    }
     (v, Some(path))
 }
 
@@ -266,7 +287,16 @@ pub fn confirm_replay(bin: &str, path: &str, hang_secs: u64) -> Result<bool, Str
     let rf: ReplayFile = serde_json::from_str(&std::fs::read_to_string(path).map_err(|e| e.to_string())?).map_err(|e| e.to_string())?;
     let (code, sig, out, timed_out) = run_sub(bin, &["replay-exec", path], Duration::from_secs(hang_secs));
     match rf.class.as_str() {
-        "proc_abort" => Ok(sig.is_some() || matches!(code, Some(c) if c != 0 && c != 1)),
+        "proc_abort" => {
+            let mut died = sig.is_some() || matches!(code, Some(c) if c != 0 && c != 1);
+            let mut tries = 0;
+            while !died && tries < 2 {
+                let (c, s, _, _) = run_sub(bin, &["replay-exec", path], Duration::from_secs(hang_secs));
+                died = s.is_some() || matches!(c, Some(c) if c != 0 && c != 1);
+                tries += 1;
+            }
+            Ok(died)
+        }
         "proc_hang" => Ok(timed_out),
         _ => {
             if timed_out {
